@@ -97,6 +97,8 @@ func runC14(p *Program, r *Result) {
 	}
 	r.Rule("R14.6", "armor failures stay typed through the layers above: source errors are wrapped with %w", 5)
 	checkSourceErrorsWrapped(p, r, libPkgs)
+	r.Rule("R14.8", "an error of the source (an armor failure among them) leaves every function as itself or wrapped, on every path (= R13.8)", 1)
+	checkErrorsExaminedOnEveryPath(p, r, libPkgs)
 	for i, e := range table {
 		if !used[i] {
 			r.cur = "R14.2"
